@@ -1,6 +1,7 @@
 #!/venv/bin/python
 """C19 - the command line is a faithful front end to the API."""
 import json
+import pathlib
 import math
 import sys
 from pathlib import Path
@@ -179,6 +180,61 @@ def body(run):
             if r3.exit_code != 0 or not same_json(got_st, exp_st):
                 run.add_violation('stats JSON report differs from the API result', desc, observed=dict(exit=r3.exit_code, json=got_st, api=exp_st),
                                   signature=dict(kind='cli-json', tool='stats'))
+    # ---- fuse --compare: the comparison stage, too, runs with the settings given on the command line / in the configuration file: every
+    #      RasterCompare.process call the command makes returns what the API returns for that file with those settings
+    for j in range(run.scale(3, 10)):
+        g, pair, mbm, nblk = fz.workable_pair(run.work, rng, lambda r: synth.aligned_geom(r, 24), (3, 3), 1, tag=f'fc{j}')
+        ds, us = [('nearest', 'bilinear'), ('bilinear', 'nearest'), ('cubic', 'average'), ('nearest', 'cubic')][j % 4]
+        thr = [2, 1, 3][j % 3]
+        outd = run.work / f'fcmp{j}'
+        outd.mkdir()
+        args = ['fuse', '-m', 'gain', '-k', '3', '3', '-od', str(outd), '-nbo', '-cmp', 'ref', '-t', str(thr), '-mbm', repr(mbm)]
+        conf = {}
+        if j % 2:
+            conf = dict(downsampling=ds, upsampling=us)
+            cf = run.work / f'fconf{j}.yaml'
+            cf.write_text(yaml.safe_dump(conf))
+            args += ['-c', str(cf)]
+        else:
+            args += ['-ds', ds, '-us', us]
+        args += [str(pair['src_fn']), str(pair['ref_fn'])]
+        desc = dict(args=[a if len(a) < 60 else '...' + a[-30:] for a in args], conf=conf, geom=g.describe())
+        seen = []
+        orig_rc = hcli.RasterCompare
+
+        class SpyCompare(orig_rc):
+            def __init__(self, src_filename, ref_filename, *a, **kw):
+                self._spy_files = (str(src_filename), str(ref_filename), kw.get('proc_crs'))
+                super().__init__(src_filename, ref_filename, *a, **kw)
+
+            def process(self, **kw):
+                st_ = super().process(**kw)
+                seen.append((self._spy_files, st_))
+                return st_
+        hcli.RasterCompare = SpyCompare
+        try:
+            r = CliRunner().invoke(hcli.cli, args)
+        finally:
+            hcli.RasterCompare = orig_rc
+        run.count_case(('fuse-compare', j), True, desc if j == 0 else None)
+        problems = {}
+        if r.exit_code != 0:
+            problems['exit code'] = dict(exit_code=r.exit_code, output=r.output[-300:])
+        elif len(seen) != 2:
+            problems['number of comparisons'] = len(seen)
+        else:
+            for (sfn_, rfn_, pc_), st_ in seen:
+                with RasterCompare(sfn_, rfn_, **({} if pc_ is None else dict(proc_crs=pc_))) as rc:
+                    exp_ = rc.process(threads=thr, max_block_mem=mbm, downsampling=ds, upsampling=us)
+                ja, jb = json.loads(json.dumps(jsonable(st_))), json.loads(json.dumps(jsonable(exp_)))
+                # (block sums are accumulated in completion order: statistics agree to accumulation noise, far below the effect of another kernel)
+                close = ja.keys() == jb.keys() and all(ja[b_].keys() == jb[b_].keys() and all(
+                    (math.isnan(ja[b_][f_]) and math.isnan(jb[b_][f_])) or abs(ja[b_][f_] - jb[b_][f_]) <= 1e-5 * (1e-3 + abs(jb[b_][f_])) for f_ in jb[b_]) for b_ in jb)
+                if not close:
+                    problems[f'statistics of {pathlib.Path(sfn_).name}'] = dict(cli=jsonable(st_), api_same_settings=jsonable(exp_))
+        if problems:
+            run.add_violation('fuse --compare: the comparison differs from the API comparison with the same settings', desc, observed=problems,
+                              signature=dict(kind='cli-vs-api', parts=['fuse --compare']))
     # ---- several files in one invocation: one JSON entry per file, each the API result for that file
     g, pair, mbm, nblk = fz.workable_pair(run.work, rng, lambda r: synth.aligned_geom(r, 24), (3, 3), 1, tag='n')
     pfns = []
